@@ -110,7 +110,7 @@ Theorem C03_sg_roundtrip : forall s names ids es P mdtok axtok, sgc_dom s names 
     canon_sg s' names (akeys (g_nprops mg)) (akeys (g_eprops mg)) = Ok cg /\
     canon_sg s names (akeys (g_nprops mg)) (akeys (g_eprops mg)) = Ok cg /\
     sc_directed s' = sc_directed s /\ sc_ndims s' = sc_ndims s /\ sc_nodes s' = sc_nodes s /\ sc_edges s' = sc_edges s.
-Proof. exact sg_roundtrip. Qed.
+Proof. exact (sg_roundtrip KObj). Qed.
 Print Assumptions C03_sg_roundtrip.
 
 (* ---- the property text without the int64 guard is false (open finding int-beyond-int64-becomes-float) ----
@@ -161,13 +161,13 @@ Proof.
   - reflexivity.
   - reflexivity.
   - intros e He. cbn in He. destruct He as [<-|[<-|[]]]; cbn; auto.
-  - intros name Hin. vm_compute in Hin. destruct Hin as [<-|[]]. split; [discriminate|]. split; [discriminate|].
+  - intros name Hin. vm_compute in Hin. destruct Hin as [<-|[]]. split; [reflexivity|]. split; [reflexivity|]. split; [discriminate|].
     right. left. exists DI64, [2%nat]. split; [right; left; reflexivity|]. split; [discriminate|].
     replace (filled (column (map snd (d_nodes ex_lists)) "v"))
       with [PList [PInt 1; PInt 2]; PList [PInt 1; PInt 2]; PList [PInt (-3); PInt 4]] by (vm_compute; reflexivity).
     constructor; [lv_tac | constructor; [lv_tac | constructor; [lv_tac | constructor]]].
-  - intros name Hin. vm_compute in Hin. destruct Hin as [<-|[]]. split; [discriminate|]. split; [discriminate|].
-    right. right. exists DF64, 1%nat. split; [right; right; right; left; reflexivity|]. split; [vm_compute; reflexivity|].
+  - intros name Hin. vm_compute in Hin. destruct Hin as [<-|[]]. split; [reflexivity|]. split; [reflexivity|]. split; [discriminate|].
+    right. right. left. exists DF64, 1%nat. split; [right; right; right; left; reflexivity|]. split; [vm_compute; reflexivity|].
     replace (filled (column (map snd (d_edges ex_lists)) "r"))
       with [PList [PFloat 512]; PList [PFloat 1024; PFloat 2048]] by (vm_compute; reflexivity).
     constructor; [exists [1%nat]; split; [reflexivity | lv_tac] | constructor; [exists [2%nat]; split; [reflexivity | lv_tac] | constructor]].
@@ -188,22 +188,23 @@ Proof.
   - reflexivity.
   - reflexivity.
   - intros e He. cbn in He. destruct He as [<-|[<-|[]]]; cbn; auto.
-  - intros name Hin. vm_compute in Hin. destruct Hin as [<-|[<-|[]]]; (split; [discriminate | eexists; vm_compute; reflexivity]).
-  - intros name Hin. vm_compute in Hin. destruct Hin as [<-|[]]; (split; [discriminate | eexists; vm_compute; reflexivity]).
+  - intros name Hin. vm_compute in Hin. destruct Hin as [<-|[<-|[]]]; (split; [reflexivity | split; [reflexivity | eexists; vm_compute; reflexivity]]).
+  - intros name Hin. vm_compute in Hin. destruct Hin as [<-|[]]; (split; [reflexivity | split; [reflexivity | eexists; vm_compute; reflexivity]]).
 Qed.
 
-(* an in-memory geff in the spatial-graph domain (2 nodes, axes x y of float64, an int8 vector property, one edge with an int64
-   property): the three constructs give the same view *)
+(* an in-memory geff in the spatial-graph domain (2 nodes, axes x y of float64, an int16 vector property, one edge with an int64
+   property): the three constructs give the same view.  (An int8 / uint8 VECTOR is outside sg_dom: spatial_graph hands it back as a
+   bytes scalar -- open finding sg-8bit-vector-read-as-bytes; the earlier version of this example was such a graph.) *)
 Definition ex_geff : mgraph :=
   mkmg (mkmd true (Some [mkax "x" None None 0%Z; mkax "y" None None 0%Z]) [] [] 0%Z)
        (mkarr DU8 [2%nat] [7; 3]%Z) (mkarr DU8 [1%nat; 2%nat] [3; 7]%Z)
        [("x", mkprop (PFixed (mkarr DF64 [2%nat] [1024; 2048]%Z)) None);
-        ("v", mkprop (PFixed (mkarr DI8 [2%nat; 2%nat] [1; 2; 3; 4]%Z)) None);
+        ("v", mkprop (PFixed (mkarr DI16 [2%nat; 2%nat] [1; 2; 3; 4]%Z)) None);
         ("y", mkprop (PFixed (mkarr DF64 [2%nat] [512; -512]%Z)) None)]
        [("w", mkprop (PFixed (mkarr DI64 [1%nat] [9]%Z)) None)].
 
 Ltac sgp1 := split; [reflexivity | eexists; split; [reflexivity | split; [reflexivity | left; split; reflexivity]]].
-Ltac sgp2 k := split; [reflexivity | eexists; split; [reflexivity | split; [reflexivity | right; exists k; split; reflexivity]]].
+Ltac sgp2 k := split; [reflexivity | eexists; split; [reflexivity | split; [reflexivity | right; exists k; split; [reflexivity | split; reflexivity]]]].
 
 Example C03_agree_nonvacuous :
   exists cg, canon_geff ex_geff = Ok cg /\ sg_dom ex_geff "position" [7; 3]%Z [(3, 7)]%Z ["x"; "y"] DF64 /\
@@ -225,6 +226,7 @@ Proof.
     + constructor; [sgp1 | constructor].
     + cbn. intuition discriminate.
     + intros nm [<-|[<-|[]]]; eexists; (split; [reflexivity | split; reflexivity]).
+    + reflexivity.
   - repeat constructor.
   - repeat constructor.
 Qed.
@@ -247,12 +249,12 @@ Proof.
   constructor; try reflexivity; try discriminate.
   - intros e [<-|[]]; cbn; auto.
   - repeat constructor; cbn; intuition discriminate.
-  - intros nm [<-|[<-|[]]]; (split; [discriminate | cbn; intuition discriminate]).
+  - intros nm [<-|[<-|[]]]; (split; [reflexivity | cbn; intuition discriminate]).
   - repeat constructor; cbn; intuition discriminate.
-  - intros nm [<-|[<-|[]]]; discriminate.
+  - intros nm [<-|[<-|[]]]; reflexivity.
   - repeat constructor; cbn; intuition.
-  - intros nm [<-|[]]; discriminate.
-  - constructor; [split; [reflexivity | left; split; reflexivity] | constructor; [split; [reflexivity | right; exists 2%nat; split; reflexivity] | constructor]].
+  - intros nm [<-|[]]; reflexivity.
+  - constructor; [split; [reflexivity | left; split; reflexivity] | constructor; [split; [reflexivity | right; exists 2%nat; split; [reflexivity | split; reflexivity]] | constructor]].
   - constructor; [split; [reflexivity | left; split; reflexivity] | constructor].
 Qed.
 
@@ -363,7 +365,7 @@ Definition ex_mdg : dgraph :=
 Definition ex_mdc : smeta :=
   mkmd true (Some [mkax "x" (Some 0%Z) (Some 9216%Z) 5%Z]) [("x", mkpm DI8 true (Some 11%Z) None None)] [] 77%Z.
 
-Ltac col_tac := split; [discriminate | split; [discriminate | left; eexists; vm_compute; reflexivity]].
+Ltac col_tac := split; [reflexivity | split; [reflexivity | split; [discriminate | left; eexists; vm_compute; reflexivity]]].
 Ltac axis_tac := constructor; [discriminate | reflexivity | eexists; split; [vm_compute; reflexivity | first [left; reflexivity | right; reflexivity]]
                                | repeat constructor; cbn; lia].
 
